@@ -1,0 +1,64 @@
+//! Verification helpers. Compiled only with `--cfg anydb_verif`.
+
+use std::sync::Arc;
+
+use parking_lot::{RwLock, RwLockReadGuard};
+use rawdb::{Reader, RegionMetadata, verif as rv};
+
+pub use crate::base::verif_header_from_bytes;
+use crate::variants::{Page, Pages};
+use crate::{Bytes, Result};
+
+/// Decodes a page-index entry: (start, bytes, value count, raw flag).
+pub fn page_from_bytes(bytes: &[u8]) -> Result<(u64, u32, u32, bool)> {
+    let p = Page::from_bytes(bytes)?;
+    Ok((p.start, p.bytes, p.values_count(), p.is_raw()))
+}
+
+/// Encodes a page-index entry.
+pub fn page_to_bytes(start: u64, bytes: u32, values: u32, raw: bool) -> [u8; 16] {
+    if raw {
+        Page::raw(start, bytes, values).to_bytes()
+    } else {
+        Page::compressed(start, bytes, values).to_bytes()
+    }
+}
+
+/// Reports a read of `len` bytes at `off` (relative to the region start) through `reader`.
+#[inline(always)]
+pub(crate) fn access(kind: &'static str, reader: &Reader, off: usize, len: usize) {
+    if rv::enabled() {
+        rv::emit(rv::Event::Access {
+            kind,
+            region_start: reader.verif_start(),
+            region_len: reader.verif_region().verif_len_untapped(),
+            off,
+            len,
+        });
+    }
+}
+
+/// Same, for sites that hold the region's metadata guard.
+#[inline(always)]
+pub(crate) fn access_meta(kind: &'static str, meta: &RegionMetadata, off: usize, len: usize) {
+    if rv::enabled() {
+        rv::emit(rv::Event::Access {
+            kind,
+            region_start: meta.start(),
+            region_len: meta.len(),
+            off,
+            len,
+        });
+    }
+}
+
+/// Shadows a `&Arc<RwLock<Pages>>` so that `.read()` reports the acquisition first.
+pub(crate) struct TapPages<'a>(pub &'a Arc<RwLock<Pages>>);
+
+impl<'a> TapPages<'a> {
+    #[inline]
+    pub fn read(&self) -> RwLockReadGuard<'a, Pages> {
+        rv::lock_rw("pages", rv::LockMode::Read, self.0);
+        self.0.read()
+    }
+}
